@@ -6,7 +6,7 @@ candidate loops cannot leave early without a hit, a miss returns the invalid con
 The behaviour (equality with a brute-force search on every reachable mesh) is not decided."""
 import re
 
-from .canon import Canon, eq_sides, origin
+from .canon import Canon, ceq, eq_match, eq_sides, origin, split_eq
 from .extract import AnalysisBroken
 from .facts import estr, unwrap, walk
 from .rule_l import atoms_at, fmt_atoms
@@ -269,7 +269,7 @@ def run(ck, fb, fbd):
         x = l.cn.s(n.get("x"))
         o = l.org(n.get("x"))
         R = "halfface(%s).halfedges()" % x
-        want = "(find(%s.begin(), %s.end(), P0[1]) != %s.end())" % (R, R, R)
+        want = ceq("find(%s.begin(), %s.end(), P0[1])" % (R, R), "%s.end()" % R, "!=")
         fs = {(s, pol) for s, pol, c in l.facts(b)}
         ok = o is not None and o[0] == "halffaces_of_halfedge" and o[1] == "P0[0]" and (want, True) in fs
         if not ok and o is not None and o[0] == "halffaces_of_halfedge" and any("P0[1]" in s for s, p in fs) and not any(s.startswith("(find(") for s, p in fs):
@@ -436,7 +436,7 @@ def extensive(ck, l, judge):
         o = l.org(n.get("x"))
         R = "halfface(%s).halfedges()" % x
         fs = {(s, pol) for s, pol, c in l.facts(b)}
-        size_ok = ("(%s.size() != P0.size())" % R, False) in fs or ("(%s.size() == P0.size())" % R, True) in fs or ("(P0.size() != %s.size())" % R, False) in fs or ("(P0.size() == %s.size())" % R, True) in fs
+        size_ok = (ceq("%s.size()" % R, "P0.size()", "!="), False) in fs or (ceq("%s.size()" % R, "P0.size()", "=="), True) in fs
         judge(o is not None and o[0] == "halffaces_of_halfedge" and o[1] == HE0 and (HE0 + ".is_valid()", True) in fs, l, n, "find_halfface_extensive walks the halffaces around the (valid) halfedge (v0,v1) (origin %s)" % (o,), "ext:origin")
         judge(size_ok, l, n, "find_halfface_extensive accepts a halfface only if it has as many halfedges as vertices were given", "ext:size")
         # the flag
@@ -448,8 +448,9 @@ def extensive(ck, l, judge):
         init = cn.s(cn.decl[vid][0].get("init")) if vid in cn.decl else None
         sites = cn.mods.get(vid, [])
         Rm = R.replace("(", r"\(").replace(")", r"\)").replace("[", r"\[").replace("]", r"\]").replace("*", r"\*").replace(".", r"\.")
-        pat_a = re.compile(r"^\(halfedge\(%s\[\(\((it\d+)\(0\) \+ (v\d+)\) %% %s\.size\(\)\)\]\)\.from_vertex\(\) != P0\[\1\(0\)\]\)$" % (Rm, Rm))
-        pat_b = re.compile(r"^\(from_vertex_handle\(%s\[\(\((it\d+)\(0\) \+ (v\d+)\) %% %s\.size\(\)\)\]\) != P0\[\1\(0\)\]\)$" % (Rm, Rm))
+        pat_v = r"P0\[(it\d+)\(0\)\]"
+        pat_h1 = r"halfedge\(%s\[\(\((it\d+)\(0\) \+ (v\d+)\) %% %s\.size\(\)\)\]\)\.from_vertex\(\)" % (Rm, Rm)
+        pat_h2 = r"from_vertex_handle\(%s\[\(\((it\d+)\(0\) \+ (v\d+)\) %% %s\.size\(\)\)\]\)" % (Rm, Rm)
         good, offv, ctr = 0, None, None
         for k, bb, ii, m in sites:
             a = None
@@ -459,10 +460,12 @@ def extensive(ck, l, judge):
                 good = -99
                 continue
             for s, pol, c in l.facts(bb):
-                mm = pat_a.match(s) or pat_b.match(s)
-                if mm and pol is True:
+                mm = None
+                for ph in (pat_h1, pat_h2):
+                    mm = mm or eq_match(s, "!=", ph, pat_v, pol=pol, want="!=")
+                if mm and mm[0].group(1) == mm[1].group(1):
                     good += 1
-                    ctr, offv = mm.group(1), mm.group(2)
+                    ctr, offv = mm[0].group(1), mm[0].group(2)
         judge(init == "true" and good == len(sites) >= 1, l, n, "the hit flag starts true and is cleared exactly where from(hes[(i+offset) %% size]) differs from the i-th given vertex (%d of %d clearing site(s) recognised)" % (max(good, 0), len(sites)), "ext:flag")
         if ctr is None:
             continue
@@ -471,14 +474,13 @@ def extensive(ck, l, judge):
         judge(len(hdrs) == 1 and hdrs[0] in ("(%s(0) < %s.size())" % (ctr, R), "(%s(0) < P0.size())" % ctr), l, n, "the comparison runs for every i in [0, size) (loop condition %s)" % hdrs, "ext:range")
         # the offset is the position of (v0,v1) in the halfface
         osites = [(k, bb, ii, m) for vid2, ms in cn.mods.items() if cn._name.get(vid2) == offv for k, bb, ii, m in ms]
-        pat_o = re.compile(r"^\(%s\[(it\d+)\(0\)\] == %s\)$" % (Rm, re.escape(HE0)))
         ok = bool(osites)
         for k, bb, ii, m in osites:
             s_ok = False
             rhs = cn.s(m["r"]) if m.get("k") == "asg" else None
             for s, pol, c in l.facts(bb):
-                mm = pat_o.match(s)
-                if mm and pol is True and rhs in ("%s(0)" % mm.group(1), "(int)%s(0)" % mm.group(1)):
+                mm = eq_match(s, "==", r"%s\[(it\d+)\(0\)\]" % Rm, re.escape(HE0), pol=pol, want="==")
+                if mm and rhs in ("%s(0)" % mm[0].group(1), "(int)%s(0)" % mm[0].group(1)):
                     s_ok = True
             ok = ok and s_ok
         judge(ok, l, n, "the offset is set to the position at which the halfface stores the halfedge (v0,v1) (%d site(s))" % len(osites), "ext:offset")
